@@ -69,6 +69,14 @@ def subjects(ctx):
         # one letter changed
         p = rng.randrange(0, n)
         out.append((spec, seq[:p] + rng.choice("ACGT") + seq[p + 1:], tag + "+mut"))
+        # an instance of the structure of a concrete base class of this class (asked first by the oracle)
+        if spec["kind"] == "kit":
+            me = [c for c in structs if c["name"] == spec["name"]]
+            bases = [c for c in structs if me and c["name"] in me[0]["mro"][1:]]
+            if bases:
+                b = rng.choice(bases)
+                binst = gens.instantiate(rng, pattern.tokenize(b["structure"], ctx.lettermap), star=(1, 4))
+                out.append((spec, binst + gens.rand_dna(rng, rng.randrange(0, 4)), tag + "+base-instance"))
         # an instance of a neighbouring structure appended
         other = rng.choice(structs)
         inst = gens.instantiate(rng, pattern.tokenize(other["structure"], ctx.lettermap), star=(0, 3))
@@ -85,11 +93,17 @@ def oracle_cuts(case):
     enz = case["enz"]
     text = cls.structure().upper()
     flank = text.startswith(enz["site"]) and text.endswith(gens.rc(enz["site"]))
+    implutil.prime_bases(cls, case["seq"])
     for k in case["ks"]:
         seq = gens.rotate(case["seq"], k)
         ent = cls(implutil.mk_circular(seq, "r"))
         t = implutil.typed_info(ent)
         if not t["valid"]:
+            if any(t.get(f) is not None for f in ("up", "down", "target")):
+                return {"signature": "C04:rejected-record-reports-fragments",
+                        "what": "%s says the record is not valid, then reports overhangs/target %s/%s for it"
+                                % (cls.__name__, t.get("up"), t.get("down")),
+                        "input": {"cls": case["cls"], "seq": case["seq"], "ks": [k], "tag": case["tag"], "enz": enz, "role": case["role"]}}
             continue
         n = len(seq)
         cuts = cuts_of(enz, seq)
